@@ -26,7 +26,7 @@ func show(obj slip.Object, exact bool) string {
 }
 
 func showTo(b *strings.Builder, obj slip.Object, exact bool, depth int) {
-	if 100 < depth {
+	if 3000 < depth {
 		b.WriteString("#<deep>")
 		return
 	}
